@@ -177,7 +177,8 @@ func (w *World) RandomCase(rng *rand.Rand) *Concrete {
 	if rng.Float64() < 0.5 {
 		m.Extra = "none"
 	}
-	cc.Case.Recv = Recv{Layout: pick(rng, layouts), Stored: pick(rng, storedCls), Shares: "none"}
+	cc.Case.Hist = "fresh"
+	cc.Case.Recv = Recv{Layout: pick(rng, layouts), Stored: pick(rng, storedCls), Shares: "none", EonKey: "main"}
 	if m.Mt == "shares" {
 		cc.Case.Recv.Shares = pick(rng, sharesCls)
 	}
